@@ -616,7 +616,7 @@ PREDICATES = {
 #   match(spec_name, kind, detail) -> bool   which violations are this defect
 #   avoid(spec_name, args) -> bool           tuples on which the kernel must not even be called
 #                                            (the defect is a memory error that would kill the worker)
-def _overlay_u32(spec_name, kind, detail):
+def _overlay_u32(spec_name, kind, detail, args):
     if spec_name != "awkward_IndexedArrayU32_overlay_mask8_to64" or kind not in ("output-mismatch", "cross-specialisation"):
         return False
     if kind == "cross-specialisation":
@@ -631,8 +631,30 @@ def _argminmax_complex_avoid(spec_name, args):
     return len(set(p)) != len(p)
 
 
-KNOWN_DEFECTS = {
+def _has_equal_strings_in_a_group(args):
+    seen = set()
+    for p, a, b in zip(args["fromparents"], args["stringstarts"], args["stringstops"]):
+        key = (p, tuple(args["stringdata"][a:b]))
+        if key in seen:
+            return True
+        seen.add(key)
+    return False
+
+
+def _src_has(relpath, text):
+    def present(repo):
+        try:
+            return text in open(os.path.join(repo, relpath)).read()
+        except IOError:
+            return False
+    return present
+
+
+# `present(repo)`: the entry is active only while the faulty text is still in the working tree's source, so a fix
+# in the repository retires the entry (and its `avoid`) by itself.
+_KNOWN_DEFECTS = {
     "awkward_IndexedArray_overlay_mask": {
+        "present": _src_has("src/cpu-kernels/awkward_IndexedArray_overlay_mask.cpp", "toindex[i] = (m ? -1 : fromindex[i]);"),
         "mechanism": "C13-overlay-mask-U32-minus-one",
         "description": "awkward_IndexedArrayU32_overlay_mask8_to64 stores 4294967295 instead of -1 for a masked element: "
                        "`toindex[i] = (m ? -1 : fromindex[i])` converts -1 to uint32_t (usual arithmetic conversions) "
@@ -641,17 +663,38 @@ KNOWN_DEFECTS = {
         "sibling_of": "awkward_IndexedArrayU32_overlay_mask8_to64",
     },
     "awkward_reduce_argmax_complex": {
+        "present": _src_has("src/cpu-kernels/awkward_reduce_argmax_complex.cpp", "fromptr[toptr[parent * 2]]"),
         "mechanism": "C13-argminmax-complex-index",
         "description": "awkward_reduce_arg{max,min}_complex index `fromptr[toptr[parent * 2]]` / `fromptr[toptr[parent * 2 + 1]]` "
                        "where `fromptr[toptr[parent] * 2]` / `[... * 2 + 1]` is meant: reads toptr beyond outlength "
                        "(heap-buffer-overflow under ASan) and compares against unrelated elements",
-        "match": lambda spec_name, kind, detail: kind in ("output-mismatch", "cross-specialisation"),
+        "match": lambda spec_name, kind, detail, args: kind in ("output-mismatch", "cross-specialisation"),
         "avoid": _argminmax_complex_avoid,
     },
+    "awkward_NumpyArray_sort_asstrings_uint8": {
+        "present": _src_has("src/cpu-kernels/awkward_NumpyArray_sort_asstrings_uint8.cpp",
+                            "for (uint8_t i = (uint8_t)start;"),
+        "mechanism": "C13-sort-asstrings-uint8-cursor",
+        "description": "awkward_NumpyArray_sort_asstrings_uint8 walks the characters with `uint8_t i = (uint8_t)start`: "
+                       "a string that starts at or runs past byte 256 of the buffer is read from position start mod 256 "
+                       "(witness: offsets=[256,258], bytes 256..257 = 'ab', bytes 0..1 = 'zz' -> output 'zz')",
+        "match": lambda spec_name, kind, detail, args: kind == "output-mismatch" and max(args["offsets"] or [0]) > 255,
+    },
+    "awkward_ListOffsetArray_argsort_strings": {
+        "present": _src_has("src/cpu-kernels/awkward_ListOffsetArray_argsort_strings.cpp", "return !out;"),
+        "mechanism": "C13-argsort-strings-descending-comparator",
+        "description": "awkward_ListOffsetArray_argsort_strings, is_ascending=false: the comparator returns `!out`, which is "
+                       "true for two equal strings - not a strict weak ordering.  std::sort then walks off the vector: 17 "
+                       "equal strings in one group, is_stable=false -> SIGSEGV in __unguarded_partition (and std::stable_sort "
+                       "reverses equal strings).  Tuples with equal strings in a group are not run while descending",
+        "match": lambda spec_name, kind, detail, args: False,
+        "avoid": lambda spec_name, args: (not args["is_ascending"]) and _has_equal_strings_in_a_group(args),
+    },
     "awkward_reduce_argmin_complex": {
+        "present": _src_has("src/cpu-kernels/awkward_reduce_argmin_complex.cpp", "fromptr[toptr[parent * 2]]"),
         "mechanism": "C13-argminmax-complex-index",
         "description": "see awkward_reduce_argmax_complex",
-        "match": lambda spec_name, kind, detail: kind in ("output-mismatch", "cross-specialisation"),
+        "match": lambda spec_name, kind, detail, args: kind in ("output-mismatch", "cross-specialisation"),
         "avoid": _argminmax_complex_avoid,
     },
 }
@@ -672,6 +715,31 @@ def _nanfirst(vals, ascending):
             return -1 if x < y else 1
         return -1 if x > y else 1
     return functools.cmp_to_key(cmp)
+
+
+class _Active(dict):
+    """KNOWN_DEFECTS restricted to the entries whose faulty source text is present in the tree under test."""
+    _loaded = False
+
+    def _load(self):
+        if not self._loaded:
+            self._loaded = True
+            import vbuild
+            repo = vbuild.repo_dir()
+            for k, d in _KNOWN_DEFECTS.items():
+                if d["present"](repo):
+                    dict.__setitem__(self, k, d)
+
+    def get(self, k, default=None):
+        self._load()
+        return dict.get(self, k, default)
+
+    def items(self):
+        self._load()
+        return dict.items(self)
+
+
+KNOWN_DEFECTS = _Active()
 
 
 def strict():
@@ -710,8 +778,10 @@ def summary():
             out.append({"kernel": k, "argument": a, "kind": "output not compared element-wise", "reason": e["reason"]})
     for k, why in sorted(NO_CROSS.items()):
         out.append({"kernel": k, "kind": "no cross-specialisation output comparison", "reason": why})
-    for k, d in sorted(KNOWN_DEFECTS.items()):
-        out.append({"kernel": k, "kind": "KNOWN DEFECT on the unchanged tree (suppressed unless VERIF_C13_STRICT=1)",
+    active = dict(KNOWN_DEFECTS.items())
+    for k, d in sorted(_KNOWN_DEFECTS.items()):
+        out.append({"kernel": k, "kind": "KNOWN DEFECT of the 1.4.0 snapshot (suppressed unless VERIF_C13_STRICT=1)",
                     "mechanism": d["mechanism"], "description": d["description"],
-                    "tuples_avoided": "avoid" in d})
+                    "tuples_avoided": "avoid" in d,
+                    "active_in_this_tree": k in active})
     return out
